@@ -586,7 +586,7 @@ def run(ck):
     if exe_i is None:
         return finish(ck)
     findings = {f["cls"]: f for f in known_findings("C09")}
-    tier_n = {"quick": (2500, 260, 6000), "thorough": (30000, 2500, 100000)}[ck.tier]
+    tier_n = {"quick": (2500, 260, 6000), "thorough": (150000, 6000, 400000)}[ck.tier]
     n_ast, n_src, n_lift = tier_n
     disagreements = []     # (what, replay)
     prop_fail = []         # (what, replay)
@@ -716,6 +716,15 @@ def run(ck):
     for fn in sorted(os.listdir(fdir)):
         if re.search(r"macro|stage|quote|lift", fn) and fn.endswith(".mmm") and not fn.startswith("fail_"):
             fixtures.append(fn)
+    cdir = os.path.join(VERIF, "corpus", "C09")
+    if os.path.isdir(cdir):
+        for fn in sorted(os.listdir(cdir)):
+            if fn.startswith("src_") and fn.endswith(".json"):
+                scases.append(json.load(open(os.path.join(cdir, fn))))
+    if ck.replay:
+        rp = json.load(open(ck.replay)).get("replay", {})
+        if "source" in rp and "manual_expansion" in rp:
+            scases.insert(0, {"kind": "replay", "staged": rp["source"], "manual": rp["manual_expansion"], "wasm": True})
     for i in range(n_src):
         scases.append(src_case(rng))
     reqs = []
@@ -783,6 +792,15 @@ def run(ck):
             rp = dict(replay)
             rp["manual_expansion"] = c["manual"]
             rp["manual_answer"] = {k: v for k, v in b.items() if k in ("vm", "wasm", "vm_err", "wasm_err", "real_err")}
+            if "vm" not in a and "vm" in b and re.search(r"\bmatch\b", c["staged"]) and "match-in-quoted-code" in findings and "code_match" in unregistered:
+                ck.known(findings["match-in-quoted-code"], c["staged"].split("#stage(macro)")[-1].replace("\n", " ")[:160] + " -> " + str(a.get("vm_err")))
+                ck.add("src_known_F18")
+                continue
+            if re.search(r"let\s*\{", c["staged"].split("#stage(macro)")[-1]) and "record-let-pattern-in-quoted-code" in findings and "vm" in b \
+                    and a.get("vm") != b.get("vm"):
+                ck.known(findings["record-let-pattern-in-quoted-code"], c["staged"].split("#stage(macro)")[-1].replace("\n", " ")[:160] + " -> " + str(a.get("vm", a.get("vm_err"))))
+                ck.add("src_known_F20")
+                continue
             if "vm" not in a:
                 if str(a.get("expand_err", "")).startswith(("type-error", "parse-error", "top-type-error", "not-staged")):
                     # rejected by the parser / the stage-aware type checker BEFORE translate_staging runs: nothing is
@@ -890,23 +908,30 @@ def run(ck):
 
 def finish(ck):
     ck.finish(
-        explanation=("Theorems of Props/C09.v are proved in Coq for ALL expressions, nestings, environments and fuel over a Gallina "
+        explanation=("Theorems of Props/C09.v are proved in Coq for ALL expressions, nestings, environments, counters and fuel over a Gallina "
                      "transcription of translate_staging.rs (translate_stage0/translate_code with the desugar counter), of the registered "
-                     "combinators of codegen_combinators.rs and of a stage-0 evaluator; quote-then-splice is the identity on expressions in "
-                     "the normal form the encoding imposes (norm1: parentheses dropped, missing else/body/then filled with unit, let "
-                     "annotations dropped, `_`/record/nested tuple let-patterns flattened, qualified names mangled, nested quote -> block, "
-                     "lambda return type filled) and every expression expands to the reference reading of its normal form. The model is "
-                     "tied to /repo by the combinator tables regenerated from source and by running model and real compiler on the same "
-                     "generated programs (AST-level over all Expr forms, source-level over staging contexts, fixtures) comparing translate "
-                     "output and expanded AST structurally; outputs of staged programs are compared with hand-written expansions on VM/WASM; "
-                     "lift is tested on random f64 bit patterns."),
+                     "combinators of codegen_combinators.rs and of a stage-0 evaluator. C09_quote_splice_id: running the translation of any "
+                     "translatable quoted expression yields the reference reading (the expression itself with escapes replaced by what they "
+                     "evaluate to) of its normal form; the normal form is exactly what the encoding imposes (norm1: parentheses dropped, missing "
+                     "else / let body / then filled with unit, let annotations dropped, `_`, record and nested tuple let-patterns flattened, "
+                     "qualified names mangled, nested quote -> block, lambda return type filled) and is the identity on normal forms "
+                     "(C09_quote_identity). C09_expand_agrees extends this to whole staged programs (let-bound code, functions returning code, "
+                     "recursion). Refuted parts are theorems too and recorded findings: match in quoted code cannot be expanded (F18), float "
+                     "literals pass through a half-precision immediate (F19), record let-patterns are lost (F20). The model is tied to /repo by "
+                     "the combinator tables regenerated from source (C09_arity_agree) and by running model and real compiler on the same generated "
+                     "programs (AST level over all Expr forms x staging contexts; source level over staging contexts; fixtures), comparing the "
+                     "translate output and the expanded AST structurally; outputs of staged programs are compared with hand-written expansions "
+                     "on VM and WASM; lift is tested on random f64 bit patterns through every registered route."),
         trusted_base=["Coq 8.16.1 kernel (coqc, vm_compute; no native_compute)",
                       "extraction: ExtrOcamlBasic + ExtrOcamlString only; OCaml 4.13.1; ocaml/staging_drv.ml (s-expression reader/printer, f64 bits <-> spec_float)",
                       "translators/combinators.py (registered signatures, make_apply call sites)",
                       "harness/lang/src/bin/staging_run.rs: the stage-0 driver replicates compile_and_execute_stage0 through public APIs "
-                      "(mirgen::compile + vm::Machine with codegen_combinator_signatures); cross-checked against the trace log of the real compile_with_module_info",
-                      "the stage-0 VM and type checker are the real ones (C02's concern); type ids are opaque in the model; plugin macros (Probe, ...) are outside the model",
-                      "f64 -> string -> parse is the identity in the model (tested on the real code, not proved)"],
-        rule=("random stage-1 ASTs over all Expr forms (depth <= 4) placed in 7 staging contexts; source programs from 8 templates x random numeric "
+                      "(mirgen::compile + vm::Machine with codegen_combinator_signatures); cross-checked at every source case against the trace log of the real compile_with_module_info",
+                      "the stage-0 VM, its type checker and the meaning of main-stage code are the real ones (C02's concern); the model's stage-0 evaluator covers "
+                      "closures, let/letrec, if, f64 arithmetic intrinsics and the combinators; type ids are opaque; plugin macros (Probe, ...) are outside the model",
+                      "that the normal form has the same meaning as the original expression is not proved (no semantics of main-stage code in Coq); it is what the "
+                      "output comparison staged vs hand-written expansion tests",
+                      "f64 -> string -> parse is the identity in the model (tested on the real code on random bit patterns, not proved)"],
+        rule=("random stage-1 ASTs over all Expr forms (depth <= 4) placed in 7 staging contexts; source programs from 9 templates x random numeric "
               "expressions (stateful ones included) x 3 samples; a case is non-trivial when it expands successfully on both sides and its program text exceeds 60 characters; "
               "distinct = distinct program texts"))
